@@ -1026,3 +1026,37 @@ pub fn history_hash(trace_items: impl Iterator<Item = impl AsRef<str>>) -> u64 {
     }
     h.finish()
 }
+
+// ---------------------------------------------------------------------------------------------
+// Live heap bytes of the process (the simulator binary installs this as its global allocator): "grows without bound" is
+// about memory, which no queue-length metric shows.
+
+pub struct CountingAlloc;
+
+static LIVE_BYTES: std::sync::atomic::AtomicIsize = std::sync::atomic::AtomicIsize::new(0);
+
+unsafe impl std::alloc::GlobalAlloc for CountingAlloc {
+    unsafe fn alloc(&self, layout: std::alloc::Layout) -> *mut u8 {
+        let p = std::alloc::System.alloc(layout);
+        if !p.is_null() {
+            LIVE_BYTES.fetch_add(layout.size() as isize, std::sync::atomic::Ordering::Relaxed);
+        }
+        p
+    }
+    unsafe fn dealloc(&self, ptr: *mut u8, layout: std::alloc::Layout) {
+        LIVE_BYTES.fetch_sub(layout.size() as isize, std::sync::atomic::Ordering::Relaxed);
+        std::alloc::System.dealloc(ptr, layout)
+    }
+    unsafe fn realloc(&self, ptr: *mut u8, layout: std::alloc::Layout, new_size: usize) -> *mut u8 {
+        let p = std::alloc::System.realloc(ptr, layout, new_size);
+        if !p.is_null() {
+            LIVE_BYTES.fetch_add(new_size as isize - layout.size() as isize, std::sync::atomic::Ordering::Relaxed);
+        }
+        p
+    }
+}
+
+/// Heap bytes currently allocated by this process (0 forever if the counting allocator is not installed).
+pub fn live_bytes() -> isize {
+    LIVE_BYTES.load(std::sync::atomic::Ordering::Relaxed)
+}
